@@ -113,7 +113,11 @@ def verus_part(prop, tier, seed, tmp):
     fn_rows = []
     failed_names = set((f['fn'], f['name']) for f in out.failures)
     relevant_fns = set()
-    vname_to_key = {v.get('verus_name'): k for k, v in out.gen.functions.items() if v.get('verus_name')}
+    vname_to_key = {}
+    for k, v in out.gen.functions.items():
+        if v.get('verus_name'):
+            ty = k.rsplit('::', 1)[0].split(' for ')[-1].lstrip('&') if '::' in k else ''
+            vname_to_key[(ty + '::' if ty else '') + v['verus_name']] = k
     for vn, lst in out.obligations.items():
         n_rel = 0
         for o in lst:
@@ -134,7 +138,7 @@ def verus_part(prop, tier, seed, tmp):
         st = out.functions.get(vn) or out.functions.get('CircularBuffer::' + vn) or {}
         # function-breakdown names are like CircularBuffer::push_back
         for full, d in out.functions.items():
-            if full.split('::')[-1] == vn:
+            if full == vn or full.endswith('::' + vn):
                 st = d
         fn_rows.append(dict(function=key, file=meta.get('file'), lines=meta.get('lines'), source_sha256=meta.get('sha256'),
                             leg='verus', backend='Z3 (via Verus %s)' % out.version, solver_ms=st.get('time_ms'), rlimit=st.get('rlimit'),
